@@ -1285,11 +1285,21 @@ class RenameSeries(Elemwise):
             return (None,) * (self.frame.npartitions + 1)
 
 
+def _not_keyed_by_columns(value):
+    # dict-like / Series arguments can be keyed by columns of the frame, which
+    # must not be pruned then (a single selected column would even turn the
+    # frame into a Series, for which the keys mean index labels)
+    return not isinstance(value, (dict, Expr)) and not is_series_like(value)
+
+
 class Fillna(Elemwise):
-    _projection_passthrough = True
     _parameters = ["frame", "value"]
     _defaults = {"value": None}
     operation = M.fillna
+
+    @property
+    def _projection_passthrough(self):
+        return _not_keyed_by_columns(self.operand("value"))
 
 
 class Replace(Elemwise):
@@ -1308,9 +1318,14 @@ class Replace(Elemwise):
 
 
 class Isin(Elemwise):
-    _projection_passthrough = True
     _parameters = ["frame", "values"]
     operation = M.isin
+
+    @property
+    def _projection_passthrough(self):
+        # (lists of values arrive wrapped in a Delayed; a dict keyed by column
+        # is passed as it is)
+        return not isinstance(self.operand("values"), dict)
 
     @functools.cached_property
     def _meta(self):
@@ -1475,9 +1490,12 @@ class Mask(Elemwise):
 
 
 class Round(Elemwise):
-    _projection_passthrough = True
     _parameters = ["frame", "decimals"]
     operation = M.round
+
+    @property
+    def _projection_passthrough(self):
+        return _not_keyed_by_columns(self.operand("decimals"))
 
 
 class Where(Elemwise):
